@@ -157,7 +157,12 @@ fn gen_world(t: &mut Tape) -> WorldSpec {
         _ => Usage::SurplusArgumentFirst,
     };
     let (mut source_kind, mut source, mut stdin, mut loop_free): (&'static str, Vec<u8>, Vec<u8>, bool) =
-        match t.weighted(&[5, 3, 2, 2]) {
+        match t.weighted(&[5, 3, 2, 2, 4]) {
+            4 => {
+                // any program is workload here: the library is the reference
+                let s = crate::soup::gen_soup(t);
+                ("soup program", s.source.into_bytes(), s.input, false)
+            }
             0 => {
                 let sc = crate::c08::gen_scenario(t);
                 let lf = !has_loops(&sc.script.main)
